@@ -181,7 +181,9 @@ def run_sequences(ctx, nseq):
                       'how': 'harness/impl/c18_driver.py mode seqs: slots = init tensors, each op appends its result'}
             if bad:
                 nfail += 1
-                nd = len(c['init'][0].get('Xs') or c['init'][0].get('Us') or c['init'][0].get('sh'))
+                s0 = operand_spec(c, steps, op['a']) if 'a' in op else None
+                nd = len(op['shape']) if 'shape' in op else len((s0 or {}).get('shape') or (s0 or {}).get('Xs') or
+                                                                 (s0 or {}).get('Us') or (s0 or {}).get('sh') or [])
                 ctx.report('impl:%s:%s:order%d' % (bad[0], sig, nd), '%s: %s' % (sig, bad[1]), replay)
             try:
                 cc = coq_step_case(c, steps, j)
@@ -239,12 +241,16 @@ def run(ctx):
         'float part (norm, orthogonalize, hosvd, compress, aca*, als*, grou, gta): python oracle with the bounds stated in '
         'harness/props/c18_num.py; SVD/QR are LAPACK (contract checked, not modelled)',
     ]
-    run_sequences(ctx, 2500 if thorough else 450)
-    NUM.run_index_cases(ctx, 4000 if thorough else 600)
-    NUM.run_generator_cases(ctx, 1500 if thorough else 300)
-    NUM.run_canop_cases(ctx, 600 if thorough else 120)
-    NUM.run_update_cases(ctx, 400 if thorough else 80)
-    NUM.run_numeric(ctx, thorough)
+    import time
+    for name, f, n in (('sequences', run_sequences, 2500 if thorough else 450),
+                       ('index expressions', NUM.run_index_cases, 4000 if thorough else 600),
+                       ('generator', NUM.run_generator_cases, 1500 if thorough else 300),
+                       ('operators', NUM.run_canop_cases, 600 if thorough else 120),
+                       ('cython updates', NUM.run_update_cases, 400 if thorough else 80),
+                       ('numeric', NUM.run_numeric, thorough)):
+        t0 = time.time()
+        f(ctx, n)
+        log('[C18] %s: %.1fs (evaluations so far %d)' % (name, time.time() - t0, ctx.cov['evaluations']))
     ctx.cov['rule'] = ('one evaluation = one operation step / index expression / generator access / operator identity / '
                        'approximation run on the implementation; non-trivial = all; distinct by (operation, operands, result)')
     ctx.cov['exhaustive'] = False
